@@ -13,14 +13,32 @@ DYN = ["MarshalTLB", "UnmarshalTLB", "MarshalTL", "UnmarshalTL", "FixedSize", "C
 GOENV = dict(os.environ, GOFLAGS='-mod=mod', GOPROXY='off', GOSUMDB='off', GOTOOLCHAIN='local')
 
 
+EXTRA = {}   # pkgdir -> [generated harness files] (set by run_generators)
+
+
+def run_generators(gens, work):
+    """gens: list of (script relative to /verif, pkgdir, output name); regenerated from /repo on every run"""
+    EXTRA.clear()
+    for script, pkgdir, name in gens or []:
+        out = f'{work}/{name}'
+        r = subprocess.run([sys.executable, f'{VERIF}/{script}', REPO, out], capture_output=True, text=True)
+        if r.returncode != 0:
+            raise RuntimeError(f'generator {script} failed:\n' + r.stderr)
+        EXTRA.setdefault(pkgdir, []).append(out)
+
+
+def harness_files(p):
+    d = 'root' if p == '.' else p
+    return sorted(glob.glob(f'{VERIF}/harness/{d}/*.go')) + EXTRA.get(p, [])
+
+
 def harness_overlay(pkgs, native=False):
     """pkgs: list of package dirs relative to the repo root ('boc', 'liteapi/pool', '.')"""
     ov = {}
     z = 'native.go' if native else 'decl.go'
     ov[f'{REPO}/zzvrt/rt.go'] = f'{VERIF}/harness/zzvrt/{z}'
     for p in pkgs:
-        d = 'root' if p == '.' else p
-        for f in sorted(glob.glob(f'{VERIF}/harness/{d}/*.go')):
+        for f in harness_files(p):
             tgt = REPO + ('/' if p == '.' else f'/{p}/') + 'zz_verif_' + os.path.basename(f)
             ov[tgt] = f
     return ov
@@ -56,9 +74,8 @@ def harness_funcs(pkgs):
     """{pkgdir: [(name, [(pname, ptype)...])]} for every VH_ function in the harness files"""
     res = {}
     for p in pkgs:
-        d = 'root' if p == '.' else p
         fs = []
-        for f in sorted(glob.glob(f'{VERIF}/harness/{d}/*.go')):
+        for f in harness_files(p):
             src = open(f).read()
             for m in re.finditer(r'^func (VH_\w+)\(([^)]*)\)\s*{', src, re.M):
                 params = []
